@@ -19,6 +19,9 @@ fn inst_name(k: Option<u32>) -> String {
     match k {
         None => "absent".into(),
         Some(0) => "explicit-default".into(),
+        Some(3) => "id3(Argon2i, cost of id1)".into(),
+        Some(4) => "id4(version 0x10, cost of id1)".into(),
+        Some(5) => "id5(keyed with a secret, cost of id1)".into(),
         Some(i) => format!("id{}", i),
     }
 }
@@ -29,7 +32,7 @@ fn eff(k: Option<u32>) -> u32 {
 fn explore(api: &Api, seed: u64, cx: &mut Cx) {
     let sp = api.spec;
     let probe = api.s.family() == "probe";
-    let insts: Vec<Option<u32>> = if probe { vec![None, Some(0), Some(1), Some(2)] } else { vec![None, Some(0), Some(1)] };
+    let insts: Vec<Option<u32>> = if probe { vec![None, Some(0), Some(1), Some(2)] } else { vec![None, Some(0), Some(1), Some(3), Some(4), Some(5)] };
     let pws: Vec<&[u8]> = if probe { vec![b"correct horse", b""] } else { vec![b"correct horse"] };
     let mut t = Tape::seeded(seed, "c15/setup");
     let setup = match api.setup(&mut t) {
@@ -199,7 +202,7 @@ pub fn run(tier: Tier, seed: u64) -> i32 {
         property: "C15",
         tier,
         seed,
-        rule: "complete product of (registration KSF instance, login KSF instance) over {absent, explicit default, id1, id2} x 2 passwords on the 20 suites instantiated with a harness-defined logging KSF, failure injected at the 1st and 2nd call of every finish step; Argon2 {absent, explicit default, non-default cost}^2 on 3 suites".into(),
+        rule: "complete product of (registration KSF instance, login KSF instance) over {absent, explicit default, id1, id2} x 2 passwords on the 20 suites instantiated with a harness-defined logging KSF, failure injected at the 1st and 2nd call of every finish step; Argon2 {absent, explicit default, non-default cost, same cost but Argon2i / version 0x10 / keyed}^2 on 3 suites".into(),
         bounds: json!({"probe_suites": 20, "argon2_suites": 3, "instances": 4, "fault_positions": [1, 2], "quick_equals_thorough": true}),
         assumptions: vec!["KSF calls are observed through a harness-defined implementation of the public Ksf trait (thread-local log)".into()],
         exhaustive: true,
